@@ -1,17 +1,18 @@
 #!/bin/bash
-# usage: try_mutant.sh <mutant dir with patch.diff + demo.py> <prop> [<prop> ...]
-# Applies the patch to /repo, confirms demo (clean PASS / patched FAIL) and the stable tests, runs the given checks
-# (quick tier, no evidence), restores /repo.  Prints one line per check: <prop> exit=<code> [VIOLATION lines].
+# usage: [REPODIR=/path/to/worktree] [TIER=quick] try_mutant.sh <mutant dir with patch.diff + demo.py> <prop> [<prop> ...]
+# Applies the patch to REPODIR (default /repo), confirms demo (clean PASS / patched FAIL) and the stable tests, runs the
+# given checks (no evidence written), restores the tree.
 D="$1"; shift
-cd /repo || exit 9
+R="${REPODIR:-/repo}"
+cd "$R" || exit 9
 if [ -n "$(git status --porcelain)" ]; then echo "repo dirty"; exit 9; fi
-trap 'git -C /repo checkout -- . ; git -C /repo clean -fdq' EXIT
-/venv/bin/python "$D/demo.py" /repo >/dev/null 2>&1; echo "demo clean exit=$? (want 0)"
+trap 'git -C "$R" checkout -- . ; git -C "$R" clean -fdq' EXIT
+/venv/bin/python "$D/demo.py" "$R" >/dev/null 2>&1; echo "demo clean exit=$? (want 0)"
 if ! git apply --check "$D/patch.diff" 2>/dev/null; then echo "PATCH DOES NOT APPLY"; exit 8; fi
 git apply "$D/patch.diff"
-/venv/bin/python "$D/demo.py" /repo >/dev/null 2>&1; echo "demo patched exit=$? (want 1)"
-python3 /verif/tools/baseline.py | head -1
+/venv/bin/python "$D/demo.py" "$R" >/dev/null 2>&1; echo "demo patched exit=$? (want 1)"
+VERIF_REPO="$R" python3 /verif/tools/baseline.py | head -1
 for P in "$@"; do
-  OUT=$(cd /verif && ./check "$P" --tier "${TIER:-quick}" --no-evidence 2>/dev/null); RC=$?
-  echo "$P exit=$RC violations=$(echo "$OUT" | grep -c '^VIOLATION') $(echo "$OUT" | grep 'counterexample' | head -2 | cut -c1-260)"
+  OUT=$(cd /verif && VERIF_REPO="$R" ./check "$P" --tier "${TIER:-quick}" --no-evidence 2>/dev/null); RC=$?
+  echo "$P exit=$RC violations=$(echo "$OUT" | grep -c '^VIOLATION') $(echo "$OUT" | grep 'counterexample' | head -1 | cut -c1-230)"
 done
